@@ -6,6 +6,7 @@ import (
 	"sort"
 	"strings"
 	"testing"
+	"unicode/utf8"
 
 	"github.com/onosproject/onos-config/pkg/utils"
 	pathutils "github.com/onosproject/onos-config/pkg/utils/path"
@@ -457,6 +458,11 @@ func FuzzC16Text(f *testing.F) {
 		f.Add(s)
 	}
 	f.Fuzz(func(t *testing.T, s string) {
+		// path text reaches the system in proto3 string fields: text that is not valid UTF-8 cannot be decoded
+		// from the wire and is outside the property's domain (the renderer replaces such bytes by U+FFFD)
+		if !utf8.ValidString(s) {
+			t.Skip()
+		}
 		if _, err := textOracle(s); err != nil {
 			t.Fatal(err)
 		}
